@@ -118,11 +118,15 @@ PostCancel(st, e) ==
     [] e.ev = "subclosed"  -> IF e.ok THEN {st} ELSE {}
     [] e.ev = "census"     -> IF e.n = 0 THEN {st} ELSE {}
     [] e.ev = "blocked"    -> {}
+    \* C02: the cease trace stands for "every token has been consumed": when the context
+    \* is cancelled while the instance is parked at unanswered requests (the completion
+    \* monitor blocked in its wait), no cease trace may follow
+    [] e.ev = "cease"      -> IF st.parked /\ ReqToks(st) # {} THEN {} ELSE {st}
     [] OTHER -> {st}
 
 StepSet(st, e) ==
   IF st.cancelled THEN PostCancel(st, e)
-  ELSE IF e.ev = "cancel" THEN {[st EXCEPT !.cancelled = TRUE]}
+  ELSE IF e.ev = "cancel" THEN {[st EXCEPT !.cancelled = TRUE, !.parked = (e.kind = "parked")]}
   ELSE UNION {StepSet0(x, e) : x \in Expand(st)}
 
 TraceInit == l = 1 /\ ok = FALSE /\ s = InitState(1)
